@@ -238,7 +238,15 @@ func (q *TransmitLimitedQueue) deleteItem(cur *limitedBroadcast) {
 		delete(q.tm, cur.name)
 	}
 
-	if q.tq.Len() == 0 {
+}
+
+// resetIDGenIfIdle restarts the id generator once the queue is truly empty. It
+// must only be called when no item is held outside the tree (for reinsertion
+// or about to be added), otherwise a held item could later collide with a
+// freshly generated id and be silently replaced. You must already hold the
+// mutex.
+func (q *TransmitLimitedQueue) resetIDGenIfIdle() {
+	if q.lenLocked() == 0 {
 		// At idle there's no reason to let the id generator keep going
 		// indefinitely.
 		q.idGen = 0
@@ -357,6 +365,7 @@ func (q *TransmitLimitedQueue) GetBroadcasts(overhead, limit int) [][]byte {
 	for _, cur := range reinsert {
 		q.addItem(cur)
 	}
+	q.resetIDGenIfIdle()
 
 	return toSend
 }
@@ -408,4 +417,5 @@ func (q *TransmitLimitedQueue) Prune(maxRetain int) {
 		cur.b.Finished()
 		q.deleteItem(cur)
 	}
+	q.resetIDGenIfIdle()
 }
